@@ -54,10 +54,10 @@ CHECKS = {
     ),
     "C07": dict(
         category="other",
-        technique="Kani harnesses on the extracted receiver-side binding functions (conductor reconstruct, astria-core do_rollup_transactions_match_root) with Merkle audits as logged opaque predicates; Kani harnesses on the extracted builder side (sequencer generate_rollup_datas_commitment, astria-core group_rollup_data_submissions_by_rollup_id / derive_merkle_tree_from_rollup_txs / SequencerBlockBuilder::try_build) with fixed-capacity map/list stand-ins",
+        technique="Kani harnesses on the extracted receiver-side binding functions (conductor reconstruct, astria-core do_rollup_transactions_match_root) with Merkle audits as logged opaque predicates; Kani harnesses on the extracted builder side (sequencer generate_rollup_datas_commitment, astria-core group_rollup_data_submissions_by_rollup_id / derive_merkle_tree_from_rollup_txs / SequencerBlockBuilder::try_build) with fixed-capacity map/list stand-ins; Kani harness on the extracted SequencerBlock::try_from_raw with proof verification as a logged opaque predicate",
         text="Receiver side: rollup data is attached to metadata (conductor) or accepted for a block (astria-core) only through an audit of the data's own proof against that metadata's/header's root over the leaf rollup_id ‖ MTH(its own transactions); "
-             "a header is consumed only by a blob with the same block hash that passed that audit. With C08 (a verifying proof fixes leaf and path under H-inj) this gives tamper evidence for alteration and re-attribution. Builder side (bounded block shapes): the block builder accepts exactly the commitments the sequencer generates for the same transactions and deposits (whatever the deposit map iteration order), stores per rollup exactly that rollup's payloads in block order followed by its deposits, lists exactly the rollups with data in ascending id order, attaches to each the proof of its own leaf id ‖ MTH(its data), and refuses mismatching commitments.",
-        note="level other. Trusted: Kani/CBMC, opaque audit predicate, MTH as an uninterpreted function. Builder side is bounded (<= 2 data submissions over 3 rollup ids, deposits for <= 2 rollups) and uses stand-ins for IndexMap/HashMap/Vec/merkle::Tree and the block structs. NOT covered: gRPC filtering, split_for_celestia, the try_from_raw constructors.",
+             "a header is consumed only by a blob with the same block hash that passed that audit. With C08 (a verifying proof fixes leaf and path under H-inj) this gives tamper evidence for alteration and re-attribution. Builder side (bounded block shapes): the block builder accepts exactly the commitments the sequencer generates for the same transactions and deposits (whatever the deposit map iteration order), stores per rollup exactly that rollup's payloads in block order followed by its deposits, lists exactly the rollups with data in ascending id order, attaches to each the proof of its own leaf id ‖ MTH(its data), and refuses mismatching commitments. Client side: decoding a served SequencerBlock never panics and succeeds only if the header's rollup-transactions root, the block's own per-rollup data (leaf by leaf) and its own rollup-id list were each proved against the header's data hash.",
+        note="level other. Trusted: Kani/CBMC, opaque audit predicate, MTH as an uninterpreted function. Builder side is bounded (<= 2 data submissions over 3 rollup ids, deposits for <= 2 rollups) and uses stand-ins for IndexMap/HashMap/Vec/merkle::Tree and the block structs. NOT covered: gRPC filtering, split_for_celestia, FilteredSequencerBlock / SubmittedRollupData / SubmittedMetadata decoders.",
     ),
     "C08": dict(
         category="proof",
@@ -108,9 +108,9 @@ CHECKS = {
     ),
     "C15": dict(
         category="proof",
-        technique="Verus contracts on the extracted price_feed::utils::median and Price arithmetic (sort specified as sorted permutation); Kani harnesses on the extracted validate_vote_extensions and validate_extended_commit_against_last_commit with logged signature checks (bounded 2 votes)",
-        text="For every list of i128 prices of any length: median never panics, returns None exactly for the empty list, and the returned value lies between the minimum and maximum reported price. Vote extensions enter only with a logged valid signature of a validator in the set over this chain and height, with > 2/3 of power, and the extended commit must agree with the last commit vote by vote (bounded to 2 votes).",
-        note="Trusted: Verus/Z3, slice::sort_unstable specified as a sorted permutation, specs for Option::copied / div_euclid / rem_euclid. Not under contract: aggregate_oracle_votes grouping, currency-pair id mapping, price application order (K2).",
+        technique="Verus contracts on the extracted price_feed::utils::median and Price arithmetic (sort specified as sorted permutation); Kani harnesses on the extracted validate_vote_extensions and validate_extended_commit_against_last_commit with logged signature checks (bounded 2 votes); Kani harness on the extracted aggregate_oracle_votes with the median replaced by its proved contract",
+        text="For every list of i128 prices of any length: median never panics, returns None exactly for the empty list, and the returned value lies between the minimum and maximum reported price. Vote extensions enter only with a logged valid signature of a validator in the set over this chain and height, with > 2/3 of power, and the extended commit must agree with the last commit vote by vote (bounded to 2 votes). Aggregation publishes at most one price per currency pair known to the mapping, computed from exactly the prices reported for that pair in this block (so it lies within that pair's reported range); unknown ids are ignored (bounded: 2 votes x 2 prices).",
+        note="Trusted: Verus/Z3, slice::sort_unstable specified as a sorted permutation, specs for Option::copied / div_euclid / rem_euclid. Not under contract: protobuf decoding of the extensions, the proposer's id -> currency-pair mapping, price application order (K2, see C05).",
     ),
     "C16": dict(
         category="proof",
@@ -125,7 +125,7 @@ CHECKS = {
     "C17": dict(
         category="other",
         technique="Kani in place on astria-merkle with astria-core's `impl Protobuf for merkle::Proof` cut into the same crate: decode of an arbitrary wire proof; Kani harness on the extracted `impl Protobuf for Transaction`",
-        text="Decides one component: decoding any wire Merkle proof (any leaf_index/tree_size u64, path up to 40 bytes) never panics and an accepted proof re-encodes to the message it came from; verification of every decoded proof is total (C08 units); decoding a wire transaction either fails or yields a value that was signature-checked over its own body bytes and re-encodes to the same message. "
+        text="Decides one component: decoding any wire Merkle proof (any leaf_index/tree_size u64, path up to 40 bytes) never panics and an accepted proof re-encodes to the message it came from; verification of every decoded proof is total (C08 units); decoding a served SequencerBlock is total and binds it to its header (unit c07_block_decode); decoding a wire transaction either fails or yields a value that was signature-checked over its own body bytes and re-encodes to the same message. "
              "The block-, metadata- and transaction-level decoders are not under contract.",
         note="level other. Trusted: Kani/CBMC, stand-ins for Protobuf/raw::Proof/Bytes. NOT covered: prost/serde_json/brotli byte decoders; try_from_raw of SequencerBlock, FilteredSequencerBlock, SubmittedMetadata, SubmittedRollupData, Transaction; panics in tokio tasks.",
     ),
